@@ -4,14 +4,14 @@ import json
 from . import core
 
 LEVEL_TEXT = (
-    'Lean 4 theorems over an association-list model of CanonicalAssets: add/sub/neg are pointwise integer arithmetic, the commutative-group laws hold up to semantic equality, == is exactly semantic equality, contains_total is the component-wise order on non-negative values, and the asset-expression round trip preserves the value for every iteration order of the map. The model is tied to assets.rs and reduce/mod.rs by a per-run differential correspondence over op trees through the whole public API (zero entries included) and an overflow stream.'
+    'Lean 4 theorems over an association-list model of CanonicalAssets: add/sub/neg are pointwise integer arithmetic, the commutative-group laws hold up to semantic equality, == is exactly semantic equality, each of is_empty, is_empty_or_negative, is_only_naked, contains_total and contains_some is characterised by the amounts alone, so two values with the same amounts - whatever entries with amount zero they carry - answer alike, alone and on either side of a containment (C15_queries_respect_equality, C15_zero_immaterial); contains_total is the component-wise order on non-negative values, and the asset-expression round trip preserves the value for every iteration order of the map. The model is tied to assets.rs and reduce/mod.rs by a per-run differential correspondence over op trees through the whole public API (zero entries included) and an overflow stream.'
 )
 LEVEL_NOTE = (
     'Trusted: Lean kernel, axioms propext/Classical.choice/Quot.sound only, the harness and driver, the hand-written model (tied by correspondence, not proof). i128 overflow is outside the theorems (amounts are Int); HashMap order is abstracted and proved immaterial.'
 )
 PROP = "C15"
-LEAN_TARGETS = ["Tx3Proofs.C15", "Tx3Proofs.C15Expr"]
-AUDIT_MODULES = ["Tx3Proofs.C15", "Tx3Proofs.C15Expr"]
+LEAN_TARGETS = ["Tx3Proofs.C15", "Tx3Proofs.C15Expr", "Tx3Proofs.C15Queries"]
+AUDIT_MODULES = ["Tx3Proofs.C15", "Tx3Proofs.C15Expr", "Tx3Proofs.C15Queries"]
 NS = "Tx3.Assets."
 THEOREMS = [NS + t for t in [
     "C15_wf_constructors", "C15_wf_ops",
@@ -20,7 +20,7 @@ THEOREMS = [NS + t for t in [
     "C15_add_zero", "C15_add_neg_self",
     "C15_eq_semantic", "C15_structural_eq_not_semantic",
     "C15_contains", "C15_exprs", "C15_exprs_any_order", "C15_exprs_needs_proper",
-]] + ["Tx3.C15_expr_sub_is_add_neg"]
+    "isEmpty_iff", "isEmptyOrNegative_iff", "isOnlyNaked_iff", "containsTotal_iff", "containsSome_iff", "C15_queries_respect_equality", "C15_zero_immaterial"]] + ["Tx3.C15_expr_sub_is_add_neg"]
 
 RULE = (
     "cases = the law a - b = a + (-b) on reduced expressions for every pair of operands from nothing (None), numbers "
